@@ -305,6 +305,54 @@ def canonical_paths(txt, crate):
     return txt
 
 
+# private functions the rules name, found again by what they are when they are renamed (the name of a private function is not behaviour):
+# canonical path -> (path prefix, number of inputs, printed input types, printed output type)
+_BY_SIGNATURE = {
+    "scale_info::meta_type::MetaType::is_phantom": ("scale_info::meta_type::MetaType::", ["&scale_info::meta_type::MetaType"], "bool"),
+}
+
+
+def _signature_renames(d, crate):
+    import re as _re
+    fns = d.get("fns")
+    if not isinstance(fns, list):
+        return {}
+    have = {f.get("path") for f in fns}
+    tys = d.get("types") or []
+    out = {}
+    for canon, (prefix, ins, outp) in _BY_SIGNATURE.items():
+        if not canon.startswith(crate + "::") or canon in have:
+            continue
+        cands = []
+        for f in fns:
+            p_ = f.get("path") or ""
+            if not p_.startswith(prefix) or "::" in p_[len(prefix):] or f.get("kind") not in ("AssocFn", "Fn") or f.get("vis") == "pub":
+                continue
+            try:
+                i_ = [_re.sub(r"'[a-z_0-9]+ ", "", tys[x]["s"]) for x in f.get("inputs", [])]
+                o_ = tys[f["output"]]["s"]
+            except (IndexError, KeyError, TypeError):
+                continue
+            if i_ == ins and o_ == outp:
+                cands.append(p_)
+        if len(cands) == 1:
+            out[cands[0]] = canon
+    return out
+
+
+def _parse_canonical(txt, crate):
+    import re as _re
+    txt = canonical_paths(txt, crate)
+    d = json.loads(txt)
+    ren = _signature_renames(d, crate)
+    if ren:
+        _RENAMES.update(ren)
+        for old_, new_ in ren.items():
+            txt = _re.sub(r"(?<![A-Za-z0-9_:])%s(?![A-Za-z0-9_])" % _re.escape(old_), new_, txt)
+        d = json.loads(txt)
+    return d
+
+
 def load_json_canonical(path, crate="scale_info"):
     """a fact file of another crate that refers to the analysed ones (the derive corpus), with the same canonical definition paths"""
     load_mir(CONFIGS["default"])        # the analysed crate first: it determines which of its types have moved
@@ -313,7 +361,7 @@ def load_json_canonical(path, crate="scale_info"):
     except EngineError:
         pass
     with open(path) as f:
-        return json.loads(canonical_paths(f.read(), crate))
+        return _parse_canonical(f.read(), crate)
 
 
 def load_mir(features, crate="scale_info", want_derive=False):
@@ -325,7 +373,7 @@ def load_mir(features, crate="scale_info", want_derive=False):
         if not os.path.exists(p):
             raise EngineError("missing fact file %s" % p)
         with open(p) as f:
-            _loaded[key] = json.loads(canonical_paths(f.read(), crate))
+            _loaded[key] = _parse_canonical(f.read(), crate)
         _loaded[key]["_config"] = config
         _loaded[key]["_path"] = p
     return _loaded[key]
